@@ -61,7 +61,7 @@ def _child_field_names(cls_name: str) -> list[str] | None:
     cls = CLASSES.get(cls_name)
     if cls is None:
         return None
-    hints = {"VMany": ["items"], "VReq": ["child"], "VHook": ["kid"], "VMixed": ["first", "items", "one"], "VLeaf": [], "VPascal": ["Kid"]}
+    hints = {"VMany": ["items"], "VReq": ["child"], "VHook": ["kid"], "VMixed": ["first", "items", "one"], "VLeaf": [], "VPascal": ["Kid"], "VInh": ["first", "items", "one", "extra"], "VSubLeaf": [], "VOne": ["one"]}
     _ = fields, ASTNode
     return hints.get(cls_name)
 
@@ -580,6 +580,46 @@ def source_table_harness(e):
     return scenario
 
 
+def explorer_subclass_harness(e):
+    """The explorer dialect lists every node's own child fields: a class next to a subclass that adds
+    child fields (nested either way round, or written by an earlier call) - and nothing of it stays
+    for a call without the dialect."""
+    from pyoak.node import AST_SERIALIZE_DIALECT_KEY, ASTSerializationDialects
+
+    reset_all()
+    _Hook.reset()
+    L = lambda v: R("VLeaf", {"v": v})  # noqa: E731
+    base_in_sub = R("VInh", {"v": 1}, None, first=R("VMixed", {"v": 2}, None, first=L(1), items=(), one=None), items=(L(2),), one=None, extra=R("VSubLeaf", {"v": 3, "w": 4}))
+    sub_in_base = R("VMixed", {"v": 1}, None, first=R("VInh", {"v": 2}, None, first=L(1), items=(), one=None, extra=L(5)), items=(R("VSubLeaf", {"v": 3, "w": 4}), L(2)), one=None)
+    which = e.pick(["base-nested-in-subclass", "subclass-nested-in-base"], "nesting")
+    earlier = e.pick(["none", "a-base-class-node-written-with-the-dialect", "a-subclass-node-written-with-the-dialect"], "earlier_call")
+    opts = {AST_SERIALIZE_DIALECT_KEY: ASTSerializationDialects.AST_EXPLORER}
+    if earlier != "none":
+        first = build(R("VMixed", {"v": 9}, None, first=L(9), items=(), one=None) if "base" in earlier else R("VInh", {"v": 9}, None, first=L(9), items=(), one=None, extra=None))
+        first.as_dict(serialization_options=dict(opts))
+        first.detach()
+    recipe = base_in_sub if which.startswith("base") else sub_in_base
+    root = build(recipe)
+    kind = e.pick(["as_dict", "to_json"], "call")
+    if kind == "as_dict":
+        out = root.as_dict(serialization_options=dict(opts))
+    else:
+        import json
+
+        out = json.loads(root.to_json(serialization_options=dict(opts)))
+    scenario: dict[str, Any] = {"tree": describe(recipe), "nesting": which, "earlier_call": earlier, "call": kind}
+    err = check_output(out, False, False, "explorer", ordered=True)
+    if err:
+        scenario.update(problem=err)
+        e.fail("nested-object-ignores-option:explorer-children-of-a-subclass", scenario=scenario)
+    err = check_output(root.as_dict(), False, False, None, ordered=True)
+    if err or not _slots_default():
+        scenario.update(problem=err)
+        e.fail("later-default-call-affected:explorer-children", scenario=scenario)
+    e.distinct((which, earlier, kind))
+    return scenario
+
+
 def _decided(e, b) -> bool:
     if isinstance(b, bool):
         return True
@@ -609,6 +649,7 @@ def spec(tier: str, seed: int) -> Spec:
     fams += [Family(f"source-registry-state-{k}", make_harness(1, k, None, [0, 3], states), variables=var + "; selector: which of the tree's sources are in the source registry") for k in (SER if tier != "quick" else ["as_dict", "to_json"])]
     fams.append(Family("user-mashumaro-dialect", user_dialect_harness, variables="selectors: tree, call"))
     fams.append(Family("source-table-with-a-dialect", source_table_harness, variables="selectors: member sources, how the set of sources is nested, dialect, preceding call"))
+    fams.append(Family("explorer-dialect-on-a-class-next-to-its-subclass", explorer_subclass_harness, variables="selectors: which of base / subclass is nested in the other, an earlier call with the dialect, call kind"))
     fams.append(Family("options-object-reused-and-edited", options_object_harness, variables="selectors: tree, option values, first and second call kind"))
     fams.append(Family("serializable-objects-in-untyped-properties", untyped_objects_harness, variables="selectors: held value, JSON front-end variant, sort_keys"))
     fams.append(Family("property-values-that-are-serializable-objects", object_values_harness, variables="selectors: sibling order, front-end / dialect"))
